@@ -51,6 +51,60 @@ pub fn spec(id: &str, tier: Tier) -> Option<CheckSpec> {
             s.bounds = json!({"ascii_len": tier.pick(9, 11), "utf8_len": tier.pick(7, 9), "deep_components": "55..=63"});
             s
         }
+        "C15" => {
+            let mut s = CheckSpec::new("exploration", tier);
+            s.jobs = eng_depfile::jobs(tier);
+            s.rule = "abstract depfiles (1 entry x <=3 prerequisites, 2 entries x <=2, 3 entries x <=1, over 3 targets and 4 prerequisite spellings incl. Windows-style paths) under every formatting (1 entry x <=2 prerequisites) or every formatting with a bounded number of deviations from the canonical one (otherwise), read through the real read_depfile from a real file and compared with the listed prerequisites in order; every string up to length N over {a,space,:,\\,newline} and a NUL/CR/UTF-8 alphabet for totality and well-formed diagnostics; the real file path for all strings up to a smaller bound (error must name the depfile). Non-trivial = at least one prerequisite, or a rejected input.".into();
+            s.assumptions = vec!["words are separated by at least one blank or a backslash-newline, as compilers write them".into()];
+            s.bounds = json!({"format_deviations": tier.pick(2, 3), "string_len": tier.pick(9, 10), "odd_len": tier.pick(5, 6), "file_len": tier.pick(6, 7)});
+            s
+        }
+        "C20" => {
+            let mut s = CheckSpec::new("exploration", tier);
+            s.jobs = eng_render::jobs(tier);
+            s.rule = "task_message for every width 10..=300 x 15 elapsed times x messages placing a 1/2/3/4-byte character at every offset around the cut index with total lengths w-1,w,w+1,w+10,4w; every string of <= N characters over {a,é,€,😀} at widths 10..14; truncate at every alignment for max 0..=300; progress_bar for every count vector with entries 0..=B over the six states at 8 bar sizes (plus scaled vectors); whole frames through the real print_progress at forced widths 10..=300. Non-trivial = the message had to be cut / at least two non-zero counts.".into();
+            s.assumptions = vec!["the display thread's Mutex/Condvar/timeout protocol is not explored (loom does not model wait_timeout_while); the property's content is the totality of the renderers".into()];
+            s.bounds = json!({"short_len": tier.pick(6, 7), "bar_max_count": tier.pick(5, 7)});
+            s
+        }
+        "C10" => {
+            let mut s = CheckSpec::new("exploration", tier);
+            s.jobs = eng_load::jobs_c10(tier);
+            s.rule = "abstract manifests from three families (B: one build statement with every presence pattern 0/1/2 paths of the five optional sections x 7 path rotations over paths needing `$ ` `$:` `$$` escapes and UTF-8; A: every placement of command/description/depfile/pool/deps/rspfile at rule or build level; S: every sequence of <= L statements over an 11-entry menu incl. include/subninja/default/pool/comments/bindings), each under the canonical spelling and every spelling with <= D deviations at the spacing / continuation / `$v`-vs-`${v}` choice points (all pairs on a shape subset); the loaded graph dump is compared field by field with a reference loader and with the dump of the canonical spelling. Non-trivial = a non-canonical spelling, or any A/S manifest.".into();
+            s.assumptions = vec![
+                "comments only at column 0 between statements; trailing blanks only where Ninja's grammar and n2 both allow them (build/default lines)".into(),
+                "a final newline ends every file (its absence is C12's business)".into(),
+            ];
+            s.bounds = json!({"deviations": tier.pick(1, 2), "sequence_len": tier.pick(2, 3)});
+            s
+        }
+        "C11" => {
+            let mut s = CheckSpec::new("exploration", tier);
+            s.jobs = eng_load::jobs_c11(tier);
+            s.rule = "11 binding slots (file x,y before; x redefined; rule command/description; build-block x,y,description; a variable path piece; file x after the statement; y defined at the end of the child file) each absent or one of 7 expressions {L,$x,$y,a$x,${y}b,$in,$out}; every assignment with <= K present slots, with the build statement in the main file, in an included file and in a subninja file, followed by a probe statement in the parent; graph dump compared with a reference evaluator implementing the stated lookup chain. Non-trivial = every case (each has at least a rule command evaluated through the chain).".into();
+            s.assumptions = vec!["rule bindings referring to sibling rule bindings are outside the stated chain and not generated".into()];
+            s.bounds = json!({"max_present_slots": tier.pick(4, 5)});
+            s
+        }
+        "C14" => {
+            let mut s = CheckSpec::new("exploration", tier);
+            s.jobs = eng_load::jobs_c14(tier);
+            s.rule = "a first build statement with every list of 1..3 outputs over 6 spellings {x,./x,d/../x,y,./y,x/} at every explicit/implicit split, alone and followed by a second statement (1..2 outputs, same file / included file / subninja'd before) and a third (1 output); expected per reference loader: error citing both statements iff two statements produce one location, otherwise accepted with a warning iff an output repeats, outputs unique, explicit count consistent. Non-trivial = rejected manifests and manifests with a repeated output.".into();
+            s.bounds = json!({"first_statement_outputs": 3, "second": 2, "third": 1});
+            s
+        }
+        "C12" => {
+            let mut s = CheckSpec::new("exploration", tier);
+            s.jobs = eng_total::jobs(tier);
+            s.rule = "every sequence of <= N tokens over a 26-token Ninja alphabet (keywords, blanks, newline, : | || |@ $ ${ } = #, NUL, CR, TAB, a 2-byte character, $-newline) with and without final newline; every byte string of length <= B; every single-token deletion / duplication / replacement by 10 tokens and every truncation at a token boundary of ~3700 valid manifests (thorough: pairs); error-column families (lines of 1..70 and 4085..4097 bytes built from 1-4-byte characters with the error at the end, start and middle); empty expansions in every path position; 58..66-component paths; every token sequence <= M as the content of an included / subninja'd file on disk, including self- and mutual inclusion; every command-line target string <= T over {a . / \\ é}; every depfile string <= 9 over {a,space,:,\\,newline} and a NUL/CR/UTF-8 alphabet. Oracle: returns Ok, or Err whose text is a well-formed diagnostic (for syntax errors: `parse error: `, file:line with the line in range, an excerpt that is part of that line, a caret under the excerpt); no panic, abort or hang, with debug assertions, overflow checks and unsafe-precondition checks enabled. Non-trivial = rejected inputs and inputs that declare at least one step.".into();
+            s.assumptions = vec![
+                "reads outside the buffer that are not guarded by a debug assertion or unsafe-precondition check are not observable by this check".into(),
+                "the `random mutation / raw bytes` tail of the quantifier is replaced by the systematic single/double mutations and short byte strings".into(),
+            ];
+            s.bounds = json!({"token_seq_len": tier.pick(5, 6), "byte_len": tier.pick(2, 3), "mutation_depth": tier.pick(1, 2), "include_seq_len": tier.pick(3, 4), "target_len": tier.pick(6, 7)});
+            s.hang_secs = 20;
+            s
+        }
         _ => return None,
     };
     Some(spec)
@@ -79,6 +133,8 @@ pub fn case_from_marker(_prop: &str, job: &str, index: u64, bytes: &[u8]) -> Val
     let engine = job.split(':').next().unwrap_or("");
     match engine {
         "canon" => eng_canon::case_from_marker(job, index, bytes),
+        "depfile" => eng_depfile::case_from_marker(job, bytes),
+        "total" => eng_total::case_from_marker(job, bytes),
         _ => json!({"job": job, "index": index, "marker": String::from_utf8_lossy(bytes)}),
     }
 }
